@@ -12,5 +12,5 @@ CONSTANTS
   Conforming = FALSE
   Fmts <- @Fmts@
   Deviations = {}
-INVARIANTS EndToEnd NoHijack Delivered @Emit@
+INVARIANTS EndToEnd NoHijack NoHijackG Delivered @Emit@
 CHECK_DEADLOCK FALSE
